@@ -440,6 +440,73 @@ def gen_handlers():
     return "\n".join(L) + "\n"
 
 
+
+# ----------------------------------------------------------------------------- Memory.v / Utils.v (pinned-shape translation)
+def _body_src(fn_node):
+    """Statements of a function as normalised source strings: docstring, logger statements and type comments dropped."""
+    out = []
+
+    def strip(stmts):
+        res = []
+        for st in stmts:
+            if isinstance(st, ast.Expr) and isinstance(st.value, ast.Constant) and isinstance(st.value.value, str):
+                continue
+            if isinstance(st, ast.If) and "logger" in ast.unparse(st.test) and not st.orelse and \
+                    all(isinstance(b, ast.Expr) and ast.unparse(b).startswith("logger.") for b in st.body):
+                continue
+            res.append(st)
+        return res
+
+    for st in strip(fn_node.body):
+        if isinstance(st, (ast.If, ast.For, ast.While)):
+            st = type(st)(**{k: (strip(v) if k in ("body", "orelse") else v) for k, v in ast.iter_fields(st)})
+            ast.fix_missing_locations(st)
+        out.append(" ".join(ast.unparse(st).split()))
+    return out
+
+
+MEMORY_EXPECTED = {
+    "is_update_X_and_G": ["yk = gk - g_old", "sTy = (xk - x_old).dot(yk)", "yTy = yk.dot(yk)", "if sTy > eps * yTy: return True", "return False"],
+    "update_X_and_G": ["if not is_update_X_and_G(xk, gk, X[-1], G[-1], eps): return False", "X.append(xk)", "G.append(gk)",
+                       "if len(X) > maxcor + 1: X.popleft() G.popleft()", "return True"],
+}
+
+
+def gen_memory():
+    """The memory functions of bfgsmats.py and the diagonal utility: their normalised source is emitted as constants
+    (pinned by reflexivity in Properties/C10.v, C13.v, C18.v) and, for the shapes the hand-written models implement, the
+    translator checks the shape itself and emits the corresponding Gallina definition."""
+    bm = ast.parse(_src("bfgsmats.py"))
+    ut = ast.parse(_src("utils.py"))
+    mn = ast.parse(_src("main.py"))
+    L = ["(* GENERATED from /repo/lbfgsb/bfgsmats.py, utils.py, main.py by harness/translate.py - do not edit *)",
+         "From Coq Require Import String List QArith.", "Import ListNotations.", "Local Open Scope string_scope.", ""]
+    for mod, names in ((bm, ["is_update_X_and_G", "update_X_and_G", "make_X_and_G_respect_strong_wolfe"]), (ut, ["extract_hess_inv_diag"]),
+                       (mn, ["initialize_X_and_G"])):
+        for nm in names:
+            f = _func(mod, nm)
+            L.append(f"Definition {nm}_args : list string := [" + "; ".join(coq_string(a.arg) for a in f.args.args) + "].")
+            L.append(f"Definition {nm}_src : list string := [" + ";\n  ".join(coq_string(x) for x in _body_src(f)) + "].")
+    up = _func(bm, "update_lbfgs_matrices")
+    calls = [ast.unparse(c) for c in ast.walk(up) if isinstance(c, ast.Call) and ast.unparse(c.func) in ("update_X_and_G",)]
+    L.append("Definition update_lbfgs_matrices_memory_calls : list string := [" + "; ".join(coq_string(x) for x in calls) + "].")
+    conds = [" ".join(ast.unparse(n.test).split()) for n in ast.walk(up) if isinstance(n, ast.If)]
+    L.append("Definition update_lbfgs_matrices_tests : list string := [" + "; ".join(coq_string(x) for x in conds) + "].")
+    # the diagonal utility: for i in range(n): v = zeros(n); v[i] = 1.0; out[i] = matvec(v)[i]
+    d = _body_src(_func(ut, "extract_hess_inv_diag"))
+    want = ["n_params = hess_inv.shape[0]", "hess_inv_diag = np.zeros(n_params)",
+            "for i in range(n_params): v = np.zeros(n_params) v[i] = 1.0 hess_inv_diag[i] = hess_inv.matvec(v)[i]", "return hess_inv_diag"]
+    if d != want:
+        raise TranslateError("extract_hess_inv_diag: unexpected shape " + repr(d))
+    L.append("")
+    L.append("(* extract_hess_inv_diag: out[i] = matvec(e_i)[i] for i in range(n) *)")
+    L.append("Local Open Scope Q_scope.")
+    L.append("Definition unit_vec (n i : nat) : list Q := map (fun j => if Nat.eqb j i then 1 else 0) (seq 0 n).")
+    L.append("Definition extract_hess_inv_diag (n : nat) (matvec : list Q -> list Q) : list Q :=")
+    L.append("  map (fun i => nth i (matvec (unit_vec n i)) 0) (seq 0 n).")
+    return "\n".join(L) + "\n"
+
+
 def gen_bench():
     """benchmarks.py -> real-valued Gallina functions (harness/translate_bench.py, fail-closed), then the translator's
     own reading of NumPy is validated against the real functions on random points."""
@@ -457,7 +524,7 @@ def gen_bench():
     return text + "\n"
 
 
-GENERATORS = {"Consts.v": gen_consts, "StopTests.v": gen_stoptests, "Handlers.v": gen_handlers, "Bench.v": gen_bench}
+GENERATORS = {"Consts.v": gen_consts, "StopTests.v": gen_stoptests, "Handlers.v": gen_handlers, "Bench.v": gen_bench, "Memory.v": gen_memory}
 
 
 def generate():
